@@ -48,4 +48,30 @@ def holdings_values_liquidation(ob):
 
 holdings_values_liquidation.kind = "holdings_values_liquidation"
 
-TABLE = {f.kind: f for f in (transact_nlv_delta, holdings_values_liquidation)}
+def accrued_interest_query(ob):
+    """a query (accrue=False) must change nothing: cash and the accrual clock"""
+    from datetime import timedelta
+    m = model_floats(ob["model"])
+    mm = {"cash0": m.get("cash0", 100.0), "markup": m.get("markup", 0.0), "rate": (m.get("rate_bid", 0.0) + m.get("rate_ask", 0.0)) / 2}
+    b, c = broker_from_model(mm)
+    now = T0 + timedelta(seconds=float(m.get("now", 0.0)))
+    if "last_accrual" in m:
+        b._last_accrual = T0 + timedelta(seconds=float(m["last_accrual"]))
+    before = (b._holdings_quantity[b.base_currency], b._last_accrual)
+    b.accrued_interest(now, accrue=False)
+    after = (b._holdings_quantity[b.base_currency], b._last_accrual)
+    # what a later accrual credits with and without the query
+    b2, _ = broker_from_model(dict(mm, rate=0.05))
+    b3, _ = broker_from_model(dict(mm, rate=0.05))
+    b2.accrued_interest(T0, accrue=False)
+    with_query = b2.accrued_interest(T0 + timedelta(days=365), accrue=True)
+    b3.accrued_interest(T0 - timedelta(days=365), accrue=True)
+    without_query = b3.accrued_interest(T0 + timedelta(days=365), accrue=True)
+    return {"reproduced": before != after, "clause": "accrued_interest(now, accrue=False) leaves cash and _last_accrual unchanged",
+            "before": [before[0], str(before[1])], "after": [after[0], str(after[1])],
+            "illustration": {"credited_after_a_query_at_T0": with_query, "credited_when_clock_started_a_year_earlier": without_query}}
+
+
+accrued_interest_query.kind = "accrued_interest_query"
+
+TABLE = {f.kind: f for f in (transact_nlv_delta, holdings_values_liquidation, accrued_interest_query)}
